@@ -10,7 +10,7 @@ INT_TYPES = [("int", 256, False)] * 6 + [("int", 256, True)] * 3 + [("int", 128,
 ARITH = ["Add"] * 4 + ["Sub"] * 3 + ["Mul"] * 3 + ["Div"] * 2 + ["Mod"] * 2 + ["BAnd", "BOr", "BXor"]
 CMPS = ["Lt", "Le", "Gt", "Ge", "Eq", "Ne"]
 
-ALL_FEATURES = {"convert", "ifexp", "minmax", "bitops", "internal", "loops", "arrays", "dynarrays", "structs",
+ALL_FEATURES = {"probes", "convert", "ifexp", "minmax", "bitops", "internal", "loops", "arrays", "dynarrays", "structs",
                 "transient", "sender", "value", "fordyn", "forin"}
 
 
@@ -581,6 +581,83 @@ class Gen:
         name = f"f{idx}" if external else f"g{idx}"
         return Fun(name, params, ret, body, external, payable)
 
+    def probe_function(self, idx):
+        """a tiny external function exercising ONE operator at ONE type on its arguments (systematic operator coverage;
+        the random programs cover the interplay)"""
+        r = self.r
+        t = self.int_type()
+        a0 = E("var", t, name="a0", id=0)
+        a1 = E("var", t, name="a1", id=1)
+        kind = r.choice(["cmp"] * 4 + ["arith"] * 4 + ["lit"] * 3 + ["minmax", "neg", "conv", "aug", "boolop"])
+        ret = t
+        if kind == "cmp":
+            ret, e = BOOL, E("cmp", BOOL, op=r.choice(CMPS), a=a0, b=a1)
+        elif kind == "arith":
+            e = E("bin", t, op=r.choice(ARITH), a=a0, b=a1)
+        elif kind == "lit":
+            op = r.choice(ARITH + CMPS)
+            lit = self.lit(t, nonzero=True)
+            if r.random() < 0.5 and op not in ("Div", "Mod"):
+                a, b = lit, a0
+            else:
+                a, b = a0, lit
+            if op in CMPS:
+                ret, e = BOOL, E("cmp", BOOL, op=op, a=a, b=b)
+            else:
+                e = E("bin", t, op=op, a=a, b=b)
+        elif kind == "minmax":
+            e = E(r.choice(["min", "max"]), t, a=a0, b=a1)
+        elif kind == "neg" and t[2]:
+            e = E("neg", t, a=a0)
+        elif kind == "conv":
+            t2 = self.int_type()
+            if t2 == t:
+                t2 = BOOL
+            ret, e = t2, E("conv", t2, a=a0)
+        elif kind == "boolop":
+            c1 = E("cmp", BOOL, op=r.choice(CMPS), a=a0, b=self.lit(t))
+            c2 = E("cmp", BOOL, op=r.choice(CMPS), a=a1, b=self.lit(t))
+            ret, e = BOOL, E(r.choice(["and", "or"]), BOOL, a=c1, b=c2 if r.random() < 0.7 else E("not", BOOL, a=c2))
+        else:
+            # aug-assignment through a local
+            op = r.choice(ARITH)
+            f = Fun(f"p{idx}", [("a0", t), ("a1", t)], t,
+                    [S("assign", base=("loc", "x", 2), path=[], e=a0, decl=t),
+                     S("aug", op=op, ty=t, base=("loc", "x", 2), path=[], e=a1),
+                     S("return", e=E("var", t, name="x", id=2))], True)
+            f.probe = t
+            return f
+        f = Fun(f"p{idx}", [("a0", t), ("a1", t)], ret, [S("return", e=e)], True)
+        f.probe = t
+        return f
+
+    def probe_args(self, t):
+        """three argument pairs: a < b, a > b, a == b, around small values and the type's boundaries"""
+        r = self.r
+        lo, hi = int_bounds(t)
+        W = 2 ** 256
+
+        def pick():
+            x = r.random()
+            if x < 0.45:
+                return r.choice([0, 1, 2, 3, 4, 5, 7, 8, 9, 16, 100])
+            if x < 0.6 and lo < 0:
+                return -r.choice([1, 2, 3, 7, 8, 100])
+            if x < 0.85:
+                return r.choice([hi, hi - 1, lo, lo + 1, hi // 2, hi // 2 + 1, lo // 2])
+            return r.randrange(lo, hi + 1)
+        out = []
+        for rel in ("lt", "gt", "eq"):
+            a, b = min(max(pick(), lo), hi), min(max(pick(), lo), hi)
+            if rel == "eq":
+                b = a
+            elif a == b:
+                b = a + 1 if a < hi else a - 1
+            if (rel == "lt") != (a < b) and rel != "eq":
+                a, b = b, a
+            out.append([a % W, b % W])
+        return out
+
     def compute_writes(self, i, f):
         """storage/transient names function i may modify (transitively through callees)"""
         from vlib.c01_ast import e_children, s_exprs, s_blocks
@@ -655,6 +732,9 @@ class Gen:
             self.compute_writes(i, f)
         for i in range(r.randrange(1, 4)):
             p.exts.append(self.function(i, True))
+        if "probes" in self.feat:
+            for _ in range(2):
+                p.exts.append(self.probe_function(len(p.exts)))
         return p
 
     # ---------------------------------------------------------------- calls
@@ -710,4 +790,8 @@ class Gen:
                 value = self.r.choice([1, 2, 7, 10 ** 18])
             sender = SENDER2 if ("sender" in self.feat and self.r.random() < 0.4) else DEPLOYER
             out.append(Call(i, args, sender, value))
+        for i, f in enumerate(prog.exts):
+            if getattr(f, "probe", None) is not None:
+                for pair in self.probe_args(f.probe):
+                    out.insert(self.r.randrange(len(out) + 1), Call(i, pair))
         return out
